@@ -226,7 +226,8 @@ type GV struct {
 	Fl   byte   // flavour a o l s b i f
 	Xs   []*GV
 	Keys []string
-	Unsp int // which unsupported value
+	Unsp int  // which unsupported value
+	NilC bool // for '(' and '<' without elements: the typed nil slice / map instead of an empty one
 }
 
 func (g *GV) Token() string {
@@ -282,10 +283,25 @@ func (g *GV) tok(sb *strings.Builder) {
 
 type unsupportedStruct struct{ A int }
 
+// named types over supported underlying types are different dynamic types: they must be rejected
+type (
+	namedInt     int
+	namedInt8    int8
+	namedUint32  uint32
+	namedFloat32 float32
+	namedFloat64 float64
+	namedString  string
+	namedBool    bool
+	namedSlice   []any
+	namedMap     map[string]any
+)
+
 var unsupportedValues = []any{
 	time.Unix(0, 0), struct{}{}, unsupportedStruct{1}, []int8{1}, map[int]string{1: "a"}, [3]int{1, 2, 3},
 	new(int), make(chan int), func() {}, uintptr(7), complex128(1), []float32{1}, []uint{1}, map[string]int8{"a": 1},
 	[1]string{"a"},
+	time.Duration(5), time.Month(3), namedInt(1), namedInt8(2), namedUint32(3), namedFloat32(1.5), namedFloat64(2.5), namedString("s"), namedBool(true),
+	namedSlice{1}, namedMap{"a": 1}, struct{ X []int }{},
 }
 
 // Go materialises the described value.
@@ -330,6 +346,24 @@ func (g *GV) Go() any {
 	case 'X':
 		return unsupportedValues[g.Unsp%len(unsupportedValues)]
 	case '(':
+		if g.NilC && len(g.Xs) == 0 {
+			switch g.Fl {
+			case 'a':
+				return []any(nil)
+			case 'o':
+				return []at.Object(nil)
+			case 'l':
+				return []at.List(nil)
+			case 's':
+				return []string(nil)
+			case 'b':
+				return []bool(nil)
+			case 'i':
+				return []int(nil)
+			default:
+				return []float64(nil)
+			}
+		}
 		switch g.Fl {
 		case 'a':
 			r := make([]any, 0, len(g.Xs))
@@ -375,6 +409,24 @@ func (g *GV) Go() any {
 			return r
 		}
 	case '<':
+		if g.NilC && len(g.Xs) == 0 {
+			switch g.Fl {
+			case 'a':
+				return map[string]any(nil)
+			case 'o':
+				return map[string]at.Object(nil)
+			case 'l':
+				return map[string]at.List(nil)
+			case 's':
+				return map[string]string(nil)
+			case 'b':
+				return map[string]bool(nil)
+			case 'i':
+				return map[string]int(nil)
+			default:
+				return map[string]float64(nil)
+			}
+		}
 		switch g.Fl {
 		case 'a':
 			r := make(map[string]any, len(g.Xs))
